@@ -1,11 +1,12 @@
 (* C01 - SSI recovers exact modal parameters from noise-free free-vibration data.
-   Statements only: each theorem is closed by [exact] of a lemma of Proofs/P_realise.v, P_modal.v, P_modal_R.v.
+   Statements only: each theorem is closed by [exact] of a lemma of Proofs/P_realise.v, P_modal.v, P_modal_R.v,
+   P_eigcount_c01.v, P_realise_dim.v (witness-free spectrum / multiplicity, through Base/Dim.v), P_compose.v.
    Numerical kernels (SVD, QR, triangular inverse, pseudo-inverse, eigen-solver, complex log) appear only as
    universally quantified results constrained by their contracts. *)
 From Coq Require Import String List Arith Lia Ring Field ZArith QArith Qcanon Reals Permutation.
-From PyOMA.Base Require Import Carrier FMat Cplx Show EigCount.
+From PyOMA.Base Require Import Carrier FMat Cplx Show EigCount Dim.
 From PyOMA.Model Require Import M_hankel M_realise M_modal.
-From PyOMA.Proofs Require Import P_realise P_modal P_modal_R P_eigcount_c01.
+From PyOMA.Proofs Require Import P_realise P_modal P_modal_R P_eigcount_c01 P_realise_dim.
 Import ListNotations.
 
 Section S.
@@ -305,17 +306,127 @@ Proof.
   exact (conj Ha (conj Hb Hc)).
 Qed.
 
-(* What is NOT proved (asserts nothing).  C01_multiplicity / C01_no_spurious_pole take the two-sided invertible modal matrix
-   Phi of the true system as a witness.  The statement below has no such witness: it only says that the true A has n
-   pairwise different eigenvalues.  Missing for it: "eigenvectors of pairwise different eigenvalues are independent" and
-   "n independent vectors of K^n form a two-sided invertible matrix" (dimension theory), which would produce Phi, Phii.
-   Also not proved here: the nearest-pole extraction at that order (property C11). *)
+(* (13') THE SAME WITHOUT ANY WITNESS.  Carrier: a formally real FIELD with decidable equality (Qc; classically the reals).
+   Dimension theory (Base/Dim.v: eigenvectors of pairwise different eigenvalues are independent; n independent vectors of
+   K^n form a two-sided invertible matrix) produces the modal matrix Phi, Phii that (13) takes as hypothesis.  What is
+   assumed about the true system is only: [lams] is a duplicate-free list of n = order complex numbers and each of them has
+   SOME eigenvector of the true A (n pairwise different poles; for m underdamped modes: the m conjugate pairs, n = 2m). *)
+Section MS.
+Variable R:Type. Variable K:Ops R.
+Hypothesis Rth : ring_theory (o0 K) (o1 K) (oadd K) (omul K) (osub K) (oopp K) (@eq R).
+Hypothesis Hint : forall a b:R, omul K a b = o0 K -> a = o0 K \/ b = o0 K.
+(* the eigenspace of a simple eigenvalue lam_i0 of a diagonalised matrix is the line spanned by the modal column i0
+   (any commutative ring without zero divisors; used at the complexified carrier for the shape clause below) *)
+Theorem C01_eigvec_simple : forall n (A Phi Phii:fmat R) (lam:nat -> R),
+  feq n n (fmul K n A Phi) (fmul K n Phi (ediag K lam)) -> feq n n (fmul K n Phi Phii) (fid K) -> feq n n (fmul K n Phii Phi) (fid K) ->
+  forall i0, (i0 < n)%nat -> (forall j, (j < n)%nat -> j <> i0 -> lam j <> lam i0) ->
+  forall v:fmat R, feq n 1 (fmul K n A v) (fscal K (lam i0) v) -> ~ feq n 1 v (fzero K) ->
+  exists y:R, y <> o0 K /\ forall a, (a < n)%nat -> v a 0%nat = omul K (Phi a i0) y.
+Proof. exact (eigvec_simple R K Rth Hint). Qed.
+End MS.
+
+Section MF.
+Variable R:Type. Variable K:Ops R.
+Hypothesis Fth : field_theory (o0 K) (o1 K) (oadd K) (omul K) (osub K) (oopp K) (odiv K) (oinv K) (@eq R).
+Hypothesis Rdec : forall x y:R, {x = y} + {x <> y}.
+Hypothesis Hreal : forall a b:R, oadd K (omul K a a) (omul K b b) = o0 K -> a = o0 K.
+
+(* the witness exists: a complete modal basis of the true system, listed in the order of lams *)
+Theorem C01_modal_witness : forall n (A:fmat R) (lams:list (Cplx.C R)),
+  length lams = n -> NoDup lams ->
+  (forall lam, In lam lams -> exists v, eigpair (Cplx.C R) (COps K) n (cemb R K A) lam v) ->
+  exists (Phi Phii:fmat (Cplx.C R)) (lam:nat -> Cplx.C R),
+    tab n lam = lams /\
+    (forall i j, (i < n)%nat -> (j < n)%nat -> i <> j -> lam i <> lam j) /\
+    (forall k, (k < n)%nat -> eigpair (Cplx.C R) (COps K) n (cemb R K A) (lam k) (fun i _ => Phi i k)) /\
+    feq n n (fmul (COps K) n (cemb R K A) Phi) (fmul (COps K) n Phi (fdiag (COps K) lam)) /\
+    feq n n (fmul (COps K) n Phi Phii) (fid (COps K)) /\ feq n n (fmul (COps K) n Phii Phi) (fid (COps K)).
+Proof. exact (modal_witness R K Fth Rdec Hreal). Qed.
+
+(* C01_full_statement (below) on the generic carrier: the identified A_hat has NO eigenvalue outside the n true poles ... *)
+Theorem C01_full_generic : forall l n (A Cm Ah Ch T Ti:fmat R) (lams:list (Cplx.C R)),
+  similar_pair R K l n A Cm Ah Ch T Ti ->
+  length lams = n -> NoDup lams ->
+  (forall lam, In lam lams -> exists v, eigpair (Cplx.C R) (COps K) n (cemb R K A) lam v) ->
+  forall lam', (exists w, eigpair (Cplx.C R) (COps K) n (cemb R K Ah) lam' w) -> In lam' lams.
+Proof. exact (full_spectrum R K Fth Rdec Hreal). Qed.
+(* ... and has every one of them: the set of eigenvalues of A_hat IS lams *)
+Theorem C01_spectrum_exact : forall l n (A Cm Ah Ch T Ti:fmat R) (lams:list (Cplx.C R)),
+  similar_pair R K l n A Cm Ah Ch T Ti ->
+  length lams = n -> NoDup lams ->
+  (forall lam, In lam lams -> exists v, eigpair (Cplx.C R) (COps K) n (cemb R K A) lam v) ->
+  forall lam', (exists w, eigpair (Cplx.C R) (COps K) n (cemb R K Ah) lam' w) <-> In lam' lams.
+Proof. exact (full_spectrum_iff R K Fth Rdec Hreal). Qed.
+
+(* MULTIPLICITY, witness free.  Whatever full eigen-decomposition the solver returns for A_hat (A_hat V = V diag d, W V = I - the
+   solver hypotheses of C01_multiplicity), the pole list [d_0 .. d_{n-1}] at order n is a Permutation of lams: every true pole
+   exactly once, nothing else, no repetition; k -> sg k is a bijection onto the positions of lams; the pole d_k is a true pole
+   and column k of C_hat V is a non-zero multiple of the true observed shape C phi for EVERY eigenvector phi of the true A at
+   that pole (the eigenspace is a line, so the unity-normalised shape (10) is the true one); and if lams is m conjugate pairs
+   (z, conj z), then n = 2m and order n of the pole table holds exactly these m pairs. *)
+Theorem C01_multiplicity_full : forall l n (A Cm Ah Ch T Ti:fmat R) (V W:fmat (Cplx.C R)) (lams:list (Cplx.C R)) (d:nat -> Cplx.C R),
+  similar_pair R K l n A Cm Ah Ch T Ti ->
+  length lams = n -> NoDup lams ->
+  (forall lam, In lam lams -> exists v, eigpair (Cplx.C R) (COps K) n (cemb R K A) lam v) ->
+  feq n n (fmul (COps K) n (cemb R K Ah) V) (fmul (COps K) n V (fdiag (COps K) d)) ->
+  feq n n (fmul (COps K) n W V) (fid (COps K)) ->
+  Permutation (tab n d) lams /\ NoDup (tab n d) /\
+  (exists sg:nat -> nat,
+     (forall k, (k < n)%nat -> (sg k < n)%nat) /\
+     (forall k k', (k < n)%nat -> (k' < n)%nat -> sg k = sg k' -> k = k') /\
+     (forall i, (i < n)%nat -> exists k, (k < n)%nat /\ sg k = i) /\
+     (forall k, (k < n)%nat -> d k = nth (sg k) lams (c0 K))) /\
+  (forall k, (k < n)%nat ->
+     (exists phi, eigpair (Cplx.C R) (COps K) n (cemb R K A) (d k) phi) /\
+     forall phi, eigpair (Cplx.C R) (COps K) n (cemb R K A) (d k) phi ->
+       exists c:Cplx.C R, c <> c0 K /\
+         forall i, (i < l)%nat -> fmul (COps K) n (cemb R K Ch) V i k = cmul K (fmul (COps K) n (cemb R K Cm) phi i 0%nat) c) /\
+  (forall mus:list (Cplx.C R), Permutation lams (flat_map (fun z => [z; cconj K z]) mus) ->
+     n = (2 * length mus)%nat /\ Permutation (tab n d) (flat_map (fun z => [z; cconj K z]) mus)).
+Proof. exact (pole_multiplicity_dim R K Fth Rdec Hreal). Qed.
+End MF.
+
+(* The witness-free spectrum statement at the real numbers.  PROVED (C01_full below, from C01_full_generic: the reals are a
+   formally real field with - classically - decidable equality), and with it C01_spectrum_exact / C01_multiplicity_full at the
+   reals.  So in exact arithmetic: noise-free free decay of an order-n system with n pairwise different poles => at model
+   order n the routine's A_hat has exactly these poles, each once (m conjugate pairs at order 2m), with the true observed
+   shapes up to a non-zero factor, and nothing else.
+   What remains outside these theorems:
+   * the composition with the extraction routine is stated separately ((14): C01_extract_*, C01_identify_then_extract,
+     C01_identify_then_extract_full), over Q tables - see the note at the end of (14);
+   * floating point: every statement is about exact arithmetic (generic field / reals); the float64 implementation is tied
+     to the model by the correspondence runs of the harness, at a tolerance, not by a proof;
+   * that the eigen-solver returns a FULL decomposition (W V = I) is its contract, as are SVD / QR / pinv in (4)-(7). *)
 Definition C01_full_statement : Prop :=
   forall l n (A Cm Ah Ch T Ti:fmat R) (lams:list (Cplx.C R)),
     similar_pair R ROps_c01 l n A Cm Ah Ch T Ti ->
     length lams = n -> NoDup lams ->
     (forall lam, In lam lams -> exists v, eigpair (Cplx.C R) (COps ROps_c01) n (cemb R ROps_c01 A) lam v) ->
     forall lam', (exists w, eigpair (Cplx.C R) (COps ROps_c01) n (cemb R ROps_c01 Ah) lam' w) -> In lam' lams.
+Theorem C01_full : C01_full_statement.
+Proof. exact full_spectrum_R. Qed.
+
+Theorem C01_multiplicity_full_R : forall l n (A Cm Ah Ch T Ti:fmat R) (V W:fmat (Cplx.C R)) (lams:list (Cplx.C R)) (d:nat -> Cplx.C R),
+  similar_pair R ROps_c01 l n A Cm Ah Ch T Ti ->
+  length lams = n -> NoDup lams ->
+  (forall lam, In lam lams -> exists v, eigpair (Cplx.C R) (COps ROps_c01) n (cemb R ROps_c01 A) lam v) ->
+  feq n n (fmul (COps ROps_c01) n (cemb R ROps_c01 Ah) V) (fmul (COps ROps_c01) n V (fdiag (COps ROps_c01) d)) ->
+  feq n n (fmul (COps ROps_c01) n W V) (fid (COps ROps_c01)) ->
+  Permutation (tab n d) lams /\ NoDup (tab n d) /\
+  (exists sg:nat -> nat,
+     (forall k, (k < n)%nat -> (sg k < n)%nat) /\
+     (forall k k', (k < n)%nat -> (k' < n)%nat -> sg k = sg k' -> k = k') /\
+     (forall i, (i < n)%nat -> exists k, (k < n)%nat /\ sg k = i) /\
+     (forall k, (k < n)%nat -> d k = nth (sg k) lams (c0 ROps_c01))) /\
+  (forall k, (k < n)%nat ->
+     (exists phi, eigpair (Cplx.C R) (COps ROps_c01) n (cemb R ROps_c01 A) (d k) phi) /\
+     forall phi, eigpair (Cplx.C R) (COps ROps_c01) n (cemb R ROps_c01 A) (d k) phi ->
+       exists c:Cplx.C R, c <> c0 ROps_c01 /\
+         forall i, (i < l)%nat -> fmul (COps ROps_c01) n (cemb R ROps_c01 Ch) V i k
+                                  = cmul ROps_c01 (fmul (COps ROps_c01) n (cemb R ROps_c01 Cm) phi i 0%nat) c) /\
+  (forall mus:list (Cplx.C R), Permutation lams (flat_map (fun z => [z; cconj ROps_c01 z]) mus) ->
+     n = (2 * length mus)%nat /\ Permutation (tab n d) (flat_map (fun z => [z; cconj ROps_c01 z]) mus)).
+Proof. exact pole_multiplicity_dim_R. Qed.
 
 Print Assumptions C01_free_decay_factor.
 Print Assumptions C01_hank_factor.
@@ -343,6 +454,13 @@ Print Assumptions C01_mode_recovery.
 Print Assumptions C01_multiplicity.
 Print Assumptions C01_no_spurious_pole.
 Print Assumptions C01_multiplicity_R.
+Print Assumptions C01_eigvec_simple.
+Print Assumptions C01_modal_witness.
+Print Assumptions C01_full_generic.
+Print Assumptions C01_spectrum_exact.
+Print Assumptions C01_multiplicity_full.
+Print Assumptions C01_full.
+Print Assumptions C01_multiplicity_full_R.
 
 (* non-vacuity (1): a rational instance (l=1, br=1, n=1, 3-4-5 rotation as singular vectors) meets every hypothesis of
    C01_realisation_similar_fast; the identified A_hat is the true 3/4 and T = 2 *)
@@ -379,6 +497,26 @@ Example C01_example_carrier :
   (forall a b:Qc, omul QcOps a b = o0 QcOps -> a = o0 QcOps \/ b = o0 QcOps) /\ o1 QcOps <> o0 QcOps /\
   (forall a b:Qc, oadd QcOps (omul QcOps a a) (omul QcOps b b) = o0 QcOps -> a = o0 QcOps).
 Proof. exact (conj qc_integral (conj qc_one_neq_zero qc_formally_real)). Qed.
+
+(* non-vacuity (3'): the hypotheses of C01_full_generic / C01_spectrum_exact / C01_multiplicity_full (no witness) are met by a
+   Gaussian-rational instance of order 4 = 2 x 2 with l = 2 outputs: true A = blockdiag([[1/2,1/4],[-1/4,1/2]],
+   [[1/3,1/2],[-1/2,1/3]]) with poles l1 = 1/2 + i/4, l2 = 1/3 + i/2 and their conjugates, identified in a non-orthogonal
+   basis T; the solver output lists the poles as conj l2, l1, l2, conj l1 with eigenvectors rescaled by 2, i, 1+i, -1;
+   lams is literally the list of the two conjugate pairs. *)
+Example C01_example_full :
+  similar_pair Qc QcOps 2 4 ec2_A ec2_C ec2_Ah ec2_Ch ec2_T ec2_Ti /\
+  length ec2_lams = 4%nat /\ NoDup ec2_lams /\
+  (forall lam, In lam ec2_lams -> exists v, eigpair (Cplx.C Qc) (COps QcOps) 4 (cemb Qc QcOps ec2_A) lam v) /\
+  feq 4 4 (fmul (COps QcOps) 4 (cemb Qc QcOps ec2_Ah) ec2_V) (fmul (COps QcOps) 4 ec2_V (fdiag (COps QcOps) ec2_d)) /\
+  feq 4 4 (fmul (COps QcOps) 4 ec2_W ec2_V) (fid (COps QcOps)) /\
+  ec2_lams = flat_map (fun z => [z; cconj QcOps z]) [ec2_l1; ec2_l2] /\
+  tab 4 ec2_d = [cconj QcOps ec2_l2; ec2_l1; ec2_l2; cconj QcOps ec2_l1].
+Proof. exact ec2_hyps. Qed.
+(* ... and the canonical rationals are a formally real field (decidable equality: Qcanon.Qc_eq_dec) *)
+Example C01_example_field_carrier :
+  field_theory (o0 QcOps) (o1 QcOps) (oadd QcOps) (omul QcOps) (osub QcOps) (oopp QcOps) (odiv QcOps) (oinv QcOps) (@eq Qc) /\
+  (forall a b:Qc, oadd QcOps (omul QcOps a a) (omul QcOps b b) = o0 QcOps -> a = o0 QcOps).
+Proof. exact (conj QcFth qc_formally_real). Qed.
 
 (* =========================================================================================================
    (14) COMPOSITION with the extraction routine (property C11, Model/M_mpe.v: mpe_explicit = SSI_mpe / pLSCF_mpe with an
@@ -507,6 +645,31 @@ Proof.
 Qed.
 End MX.
 
+(* (14d') the same with the witness discharged ((13') chained with (14c)): the true system is given only by its n pairwise
+   different poles lams (each with some eigenvector of A); requesting frequencies fnof (g lam), lam in lams, at order n returns
+   for each request frequency and payload computed from a TRUE pole of that frequency; nothing else, no exception. *)
+Section MXF.
+Variable R:Type. Variable K:Ops R.
+Hypothesis Fth : field_theory (o0 K) (o1 K) (oadd K) (omul K) (osub K) (oopp K) (odiv K) (oinv K) (@eq R).
+Hypothesis Rdec : forall x y:R, {x = y} + {x <> y}.
+Hypothesis Hreal : forall a b:R, oadd K (omul K a a) (omul K b b) = o0 K -> a = o0 K.
+Theorem C01_identify_then_extract_full : forall l n (A Cm Ah Ch T Ti:fmat R) (V W:fmat (Cplx.C R)) (lams:list (Cplx.C R)) (d:nat -> Cplx.C R),
+  similar_pair R K l n A Cm Ah Ch T Ti ->
+  length lams = n -> NoDup lams ->
+  (forall lam, In lam lams -> exists v, eigpair (Cplx.C R) (COps K) n (cemb R K A) lam v) ->
+  feq n n (fmul (COps K) n (cemb R K Ah) V) (fmul (COps K) n V (fdiag (COps K) d)) ->
+  feq n n (fmul (COps K) n W V) (fid (COps K)) ->
+  forall (X P:Type) (g:Cplx.C R -> X) (fnof:X -> Q) (payof:X -> P) ordmax (per:nat -> list X) freq rtol,
+  (0 < n <= ordmax)%nat -> 0 <= rtol ->
+  per n = map g (tab n d) ->
+  Forall (fun f => exists lam, In lam lams /\ fnof (g lam) == f) freq ->
+  exists vals,
+    M_mpe.mpe_explicit (fn_table fnof (pole_table ordmax per)) (pay_table payof (pole_table ordmax per)) freq (M_mpe.OInt n) rtol
+      = M_mpe.Ok (vals, M_mpe.OutInt n) /\
+    Forall2 (fun f vp => exists lam, In lam lams /\ fnof (g lam) == f /\ vp = (fnof (g lam), Some (payof (g lam)))) freq vals.
+Proof. exact (identify_then_extract_dim R K Fth Rdec Hreal). Qed.
+End MXF.
+
 (* What (14) does NOT cover.  M_mpe is a model over Q, so (14) speaks about tables whose stored frequencies are rationals; the
    identification results at the real numbers ((11), (12): fn = w / 2 pi, irrational in general) are not chained to it - that needs
    M_mpe / P_mpe restated over an ordered field (the proofs use only |.|, <=, < and linear arithmetic).  (14d) carries the
@@ -522,6 +685,7 @@ Print Assumptions C01_extract_nearest.
 Print Assumptions C01_extract_pole_table.
 Print Assumptions C01_extract_pole_table_modes.
 Print Assumptions C01_identify_then_extract.
+Print Assumptions C01_identify_then_extract_full.
 
 (* non-vacuity (4): a 3 x 3 frequency table with a NaN cell (P_compose.cx_Fn; payload = cell identifier 3*row + column).
    Order 2 holds the true 5 and 10 (5 twice): hypotheses of (14a) hold; 5 -> first row holding it (row 1, cell 5), 10 -> row 0 (cell 2).
